@@ -727,7 +727,31 @@ impl Property for C13 {
                                                     }
                                                     let feas0 = v0 <= tol;
                                                     let mut exists = false;
-                                                    for sv in (l2.ceil() as i64)..=(u2.floor() as i64) {
+                                                    // every slack value when there are few; otherwise (the equality is affine in the
+                                                    // slack) the end points and the integers next to the root
+                                                    let (lo_i, hi_i) = (l2.ceil() as i64, u2.floor() as i64);
+                                                    let cands: Vec<i64> = if hi_i - lo_i <= 256 {
+                                                        (lo_i..=hi_i).collect()
+                                                    } else {
+                                                        let mut c = vec![lo_i, hi_i];
+                                                        st.insert(s2.id, qi(0));
+                                                        let b0 = g2.eval(&st);
+                                                        st.insert(s2.id, qi(1));
+                                                        let b1 = g2.eval(&st);
+                                                        if let (Some(b0), Some(b1)) = (b0, b1) {
+                                                            let k = b1 - b0.clone();
+                                                            if !num::Zero::is_zero(&k) {
+                                                                let root = q_to_f64(&(-(b0 / k))).floor() as i64;
+                                                                for d in -2..=2 {
+                                                                    if root + d >= lo_i && root + d <= hi_i {
+                                                                        c.push(root + d);
+                                                                    }
+                                                                }
+                                                            }
+                                                        }
+                                                        c
+                                                    };
+                                                    for sv in cands {
                                                         st.insert(s2.id, qi(sv));
                                                         match g2.eval(&st) {
                                                             Some(v) => {
